@@ -24,7 +24,7 @@ RULE = ("coarsen_bins: every valid bin table with 1 chromosome of length <=7 and
         "_greedy_prune_partition: every non-decreasing edge list from 0 of length 2..5 with values <=5 x maxlen 1..6; "
         "coarsen_cooler: corpus (D1 longer-last-bin tables, chromosomes shorter than k, empty cooler, empty rows at chunk edges, variable tables whose coarsening looks fixed, bin size 1, one-bin chromosomes) x k in {2,3,5,n+1} x chunksize in {1,2,7,nnz+1}, "
         "seeded random coolers (fixed / variable / longer-last / variable-that-coarsens-to-fixed tables, 1-4 chromosomes, symmetric and square storage, 9 pixel patterns) x all four k x two chunk sizes, "
-        "nproc=2 and the CLI on a few, chains k1;k2 vs k1*k2 (fixed and variable tables), merge/coarsen interleavings, a second value column with agg max/min/sum incl. the D20 corpus (columns=[count,w], columns=[w]); "
+        "fixed-width tables of EVERY width 1..60 (thorough 1..200) x k in {2,3,5,7} at function level (chunk stream of CoolerCoarsener vs exact integer division) and end to end for widths 7,49,98,103,107,161,187,196 + random widths <= 2000 with >= 3 coarse bins per chromosome; nproc=2 and the CLI on a few, chains k1;k2 vs k1*k2 (fixed and variable tables), merge/coarsen interleavings, a second value column with agg max/min/sum incl. the D20 corpus (columns=[count,w], columns=[w]); "
         "non-trivial = nnz>0 and at least 2 old bins; distinct by input hash")
 TRUSTED = ["pandas groupby(sort=True).aggregate('sum') is modelled as the canonical aggregate (Model/Pixels.v) and observed through CoolerCoarsener",
            "create() stores the concatenation of the chunk stream (property C01/C02, observed here through the output cooler)",
@@ -403,6 +403,96 @@ def part_api(ctx):
     return len(runs)
 
 
+# ------------------------------- part 3b: many fixed bin widths (float slips in the division path)
+WIDTH_CORPUS = [7, 49, 98, 103, 107, 161, 187, 196]
+
+
+def width_case(w, k):
+    """a fixed-width table (22 and 9 bins, last bin of the 2nd chromosome shorter when w > 1) with the whole
+    diagonal and the whole first row populated: every old bin id is re-binned as bin1 and as bin2"""
+    widths = [[w] * 22, [w] * 8 + [max(1, w // 2)]]
+    n = 31
+    pixels = [[0, j, 1] for j in range(n)] + [[i, i, 2] for i in range(1, n)]
+    return {"fn": "CoolerCoarsener (bin width sweep)", "widths": widths, "symmetric": True, "pixels": sorted(pixels), "k": k,
+            "chunksize": 10 ** 6, "nproc": 1, "width": w}
+
+
+def width_stream(path, case):
+    edges, chunks = impl_coarsener(path, case, 1)
+    return [p for ch in chunks for p in ch]
+
+
+def part_widths(ctx):
+    thorough = ctx.tier == "thorough"
+    rng = ctx.rng
+    tmpdir = ctx.tmp / "widths"
+    tmpdir.mkdir(exist_ok=True)
+    ks = [2, 3, 5, 7]
+    # (a) function level: every width 1..60 (thorough: 1..200) x k; exact integer division in the model and the oracle
+    wmax = 200 if thorough else 60
+    exprs = []
+    for w in range(1, wmax + 1):
+        c0 = width_case(w, 2)
+        blocks = blocks_from_widths(c0["widths"])
+        exprs.append(f"(let t := {G.coq_bins(G.flat_of(blocks))} in let sz := {C.zl(G.sizes_of(blocks))} in let px := {G.coq_pixels(c0['pixels'])} in "
+                     f"map (fun k => coarsen_pixels t sz px k 1000000 1) {C.zl(ks)})")
+    model = C.coq_eval(HDR, exprs, tmpdir=ctx.tmp / "widthsv")
+    n = 0
+    for w, mo in zip(range(1, wmax + 1), model):
+        path = tmpdir / f"w{w}.cool"
+        c0 = width_case(w, 2)
+        blocks = blocks_from_widths(c0["widths"])
+        G.make_cooler(path, blocks, c0["pixels"], True)
+        for k, mpx in zip(ks, mo):
+            case = width_case(w, k)
+            n += 1
+            ctx.case(case, nontrivial=True, kind="width-sweep")
+            st, got = G.guarded(lambda: width_stream(path, case), 30)
+            if st != "ok":
+                ctx.compare("CoolerCoarsener stream", case, st, "ok")
+                ctx.fail(case, {"exception": st, "type": got}, None)
+                continue
+            ctx.compare("CoolerCoarsener stream (bin width sweep)", case, got, [list(p) for p in mpx])
+            exp = G.oracle_pixels(blocks, case["pixels"], k)
+            if got != exp:
+                ctx.fail(case, {"what": "re-binned pixels differ from index-based block aggregation", "width": w, "new_binsize": w * k,
+                                "got": got[:12], "expected": exp[:12]}, None)
+        os.remove(path)
+    # (b) end to end: a dozen widths incl. the known float-unfriendly ones, every chromosome with >= 3 coarse bins
+    ws = WIDTH_CORPUS + [rng.randint(2, 2000) for _ in range(12 if thorough else 4)]
+    runs = []
+    for w in ws:
+        nb = [rng.randint(21, 24), rng.randint(21, 23)]
+        widths = [[w] * nb[0], [w] * (nb[1] - 1) + [rng.randint(1, w)]]
+        ntot = sum(nb)
+        symm = rng.random() < 0.7
+        pixels = [list(p) for p in G.random_pixels(rng, ntot, symm, rng.choice(["sparse", "band", "diag"]))]
+        for k in ks:
+            runs.append({"fn": "coarsen_cooler", "widths": widths, "symmetric": symm, "pixels": pixels, "k": k,
+                         "chunksize": rng.choice([1, 7, len(pixels) + 1]), "nproc": 1, "note": f"width:{w}"})
+    model = C.coq_eval(HDR, [model_expr(c, 1) for c in runs], tmpdir=ctx.tmp / "widthsv2")
+    paths = {}
+    for ri, (case, mo) in enumerate(zip(runs, model)):
+        key = case["note"]
+        if key not in paths:
+            paths[key] = tmpdir / f"e{len(paths)}.cool"
+            G.make_cooler(paths[key], blocks_from_widths(case["widths"]), case["pixels"], case["symmetric"])
+        ctx.case(case, nontrivial=len(case["pixels"]) > 0, kind="width-e2e")
+        mbins, mpx, medges, mchunks = mo
+        st, res, out = run_api_case(ctx, tmpdir, f"x{ri}", case, cooler_path=paths[key])
+        if st != "ok":
+            ctx.compare(case["fn"], case, st, "ok")
+            ctx.fail(case, {"exception": st, "type": res}, None)
+            continue
+        os.remove(out)
+        ctx.compare("coarsen_cooler bins (width sweep)", case, res["bins"], [list(r) for r in mbins])
+        ctx.compare("coarsen_cooler pixels (width sweep)", case, res["pixels"], [list(p) for p in mpx])
+        bad = oracle_check(case, res)
+        if bad:
+            ctx.fail(case, bad, None)
+    return n + len(runs)
+
+
 # ------------------------------------------------- part 4: chains and merging
 def part_chain(ctx):
     import cooler
@@ -671,6 +761,7 @@ def run(ctx):
     scopes["coarsen_bins_cases"] = part_bins(ctx)
     scopes["prune_cases"] = part_prune(ctx)
     scopes["api_runs"] = part_api(ctx)
+    scopes["width_sweep_runs"] = part_widths(ctx)
     scopes["chains"] = part_chain(ctx)
     scopes["merge_interleavings"] = part_merge(ctx)
     scopes["agg_runs"] = part_agg(ctx)
@@ -689,6 +780,12 @@ def replay(ctx, case):
         from cooler._reduce import _greedy_prune_partition
         st, res = G.guarded(lambda: [int(x) for x in _greedy_prune_partition(np.array(case["edges"]), case["maxlen"])], 10)
         return st == "ok" and G.oracle_prune(case["edges"], case["maxlen"], res)
+    if fn.startswith("CoolerCoarsener (bin width"):
+        blocks = blocks_from_widths(case["widths"])
+        path = tmpdir / "replay_w.cool"
+        G.make_cooler(path, blocks, case["pixels"], True)
+        st, got = G.guarded(lambda: width_stream(path, case), 30)
+        return st == "ok" and got == G.oracle_pixels(blocks, case["pixels"], case["k"])
     if fn in ("coarsen_cooler", "cooler coarsen (CLI)"):
         st, res, out = run_api_case(ctx, tmpdir, "replay", case, via="cli" if "CLI" in fn else "api")
         if st != "ok":
